@@ -56,7 +56,7 @@ fn reference(cands: &[TrackDump], stored: &[TrackDump], cls: u64, only_baked: bo
             if o.id == c.id {
                 continue;
             }
-            if only_baked && o.counter % 3 != 1 {
+            if only_baked && o.counter % 4 != 1 {
                 continue;
             }
             if o.group != c.group {
